@@ -151,6 +151,9 @@ def evidence(acc):
 # child side
 
 
+_SHARED = {}
+
+
 class Evaluator:
     def __init__(self, gene, cov, major_sol, mutations, profile):
         from aldy.gene import Mutation
@@ -335,7 +338,13 @@ def run_case(case, seg, viol, stats, sample):
     from aldy.solutions import CNSolution, MajorSolution, SolvedAllele
 
     rng = random.Random(case["seed"])
-    gene = SL.load_gene(case["gene"])
+    # aldy works on a Gene object that earlier cases of this segment already used (an API user keeps
+    # it); the oracle works on a pristine load
+    gkey = canon.digest(case["gene"])
+    if gkey not in _SHARED:
+        _SHARED[gkey] = SL.load_gene(case["gene"])
+    gene = _SHARED[gkey]
+    gene_ref = SL.load_gene(case["gene"])
     gname = case["gene"].get("name", case["gene"]["kind"])
     cn = SL.random_cn(rng, gene, case["max_copies"])
     dele = gene.deletion_allele()
@@ -396,21 +405,37 @@ def run_case(case, seg, viol, stats, sample):
             phases[f"f{i}"] = {p: muts.get(p, "_") for p in k if gene.has_coverage(ma, p)}
         stats["phase_cases"] += 1
     profile = Profile("test", phase=bool(case["phase"]))
+    # a companion candidate with another gene structure in the same call (the pipeline does this
+    # whenever two structures survive); the refinement of *our* candidate is what is judged
+    companion, companion_first = None, rng.random() < 0.5
+    if rng.random() < 0.3 and not case["phase"]:
+        ccn = list(cn) + ["1"]
+        cpl = list(planted) + [rng.choice([(a.name, sorted(a.minors)[0]) for a in gene.alleles.values() if a.cn_config == "1"])]
+        companion = (ccn, cpl)
     stats["cases"] += 1
-    detail0 = {"gene": gname, "structure": cn, "planted": planted, "mode": mode, "phase": case["phase"]}
+    detail0 = {"gene": gname, "structure": cn, "planted": planted, "mode": mode, "phase": case["phase"],
+               "companion": companion, "companion_first": companion_first}
 
     def call():
         cov = SL.make_coverage(gene, table, profile, phases)
         cns = CNSolution(gene, 0, cn)
         major = MajorSolution(0, Counter(SolvedAllele(gene, ma) for ma, mi in planted), cns, [])
-        sols = MI.estimate_minor(gene, cov, [major], "cbc")
-        # the evidence the model saw: aldy's own filters, re-applied (C15 owns the filters)
+        majors = [major]
+        if companion is not None:
+            ccn, cpl = companion
+            comp = MajorSolution(0, Counter(SolvedAllele(gene, ma) for ma, mi in cpl), CNSolution(gene, 0, ccn), [])
+            majors = [comp, major] if companion_first else [major, comp]
+        allsols = MI.estimate_minor(gene, cov, majors, "cbc")
+        sols = [x for x in allsols if x.major_solution is major]
+        # the evidence the model saw: aldy's own filters, re-applied on a pristine catalogue
+        # (C15 owns the filters); considered variants are pooled over the candidates of the call
         mutations = set()
-        for sa in major.solution:
-            mutations |= set(gene.alleles[sa.major].func_muts)
-            for minor in gene.alleles[sa.major].minors.values():
-                mutations |= set(minor.neutral_muts)
-        mutations |= gene.random_mutations
+        for mj in majors:
+            for sa in mj.solution:
+                mutations |= set(gene_ref.alleles[sa.major].func_muts)
+                for minor in gene_ref.alleles[sa.major].minors.values():
+                    mutations |= set(minor.neutral_muts)
+        mutations |= gene_ref.random_mutations
 
         def flt(c, mut):
             r = gene.region_at(mut.pos)
@@ -422,7 +447,7 @@ def run_case(case, seg, viol, stats, sample):
             return cond
 
         fcov = cov.filtered(Coverage.quality_filter).filtered(flt)
-        return sols, Evaluator(gene, fcov, major, mutations, profile)
+        return sols, Evaluator(gene_ref, fcov, major, mutations, profile)
 
     def judge_solution(sols, ev, mode_name):
         if len(sols) > 1:
@@ -552,7 +577,7 @@ def run_case(case, seg, viol, stats, sample):
         judge_solution(sols4, ev4, f"fault:{kind}@{k}")
         for kk, v in SIM.fired.items():
             stats["fired"][kk] = stats["fired"].get(kk, 0) + v
-        if SIM.fired and sols4 and k == 0:
+        if SIM.fired and sols4 and k == 0 and companion is None:
             viol.append({"clause": "a refinement was reported from a solve that did not end optimal and verified",
                          "detail": dict(detail0, fault=[k, kind])})
 
